@@ -21,10 +21,10 @@ from vlib.core import Inconclusive, jhash, rng_for
 ID = "C10"
 LEVEL = "exploration"
 RULE = (
-    "case = (shape: 1-3 sessions of 1-3 batches, all 39 shapes; loss sequence: improving / non-improving / mixed / reaching exactly 0.0; "
+    "case = (shape: 1-3 sessions of 1-3 batches, all 39 shapes, plus 5 shapes with sessions of 0 batches; loss sequence: improving / non-improving / mixed / reaching exactly 0.0; "
     "agent: constant, cyclic or reward-adaptive script, or the real MABEpsilonGreedy; 3 samplers + optional supplied Halton). "
     "Controlled mode enumerates every schedule of the calibration thread and the agent threads at the synchronisation points "
-    "(queue put/get/empty/qsize, session-flag read/write, thread start/join/exit) with at most c preemptions (quick c=2, "
+    "(before and after every queue put, queue get/empty/qsize, session-flag read/write, thread start/join/exit) with at most c preemptions (quick c=2, "
     "thorough c=3, c=4 for shapes of at most 4 batches) and adds seeded random schedules without bound; free-running mode repeats cases on real threads with "
     "LINE-level yield/sleep injection. Oracle on the event log: S1 consumed actions are an in-order prefix of the session's "
     "policy results with at most one left over; S2 learn exactly once per completed chosen batch, in order, with that action "
@@ -43,6 +43,7 @@ SHARDS = {"quick": 16, "thorough": 16}
 SHARD_WATCHDOG = {"quick": 1500, "thorough": 10800}
 
 SHAPES = [s for n in (1, 2, 3) for s in itertools.product((1, 2, 3), repeat=n)]  # 39
+SHAPES += [(0,), (0, 2), (1, 0), (0, 0), (2, 0, 1)]   # sessions without a batch (calibrate(0)), also as the very first one
 
 
 def gen_cases(tier, seed):
@@ -78,6 +79,11 @@ def loss_sequence(kind, n, rng):
             seq[int(rng.integers(0, n))] = 0.0
         return seq
     return [float(np.round(10.0 ** rng.uniform(-1, 1), 6)) for _ in range(n)]
+
+
+def case_seed(desc):
+    """Every case has its own random streams (agent, scheduler, calibrator): the draws that decide explore/exploit differ from case to case."""
+    return (int(desc["seed"]) * 7919 + int(desc["k"]) * 104729 + 17) % (2**31 - 1)
 
 
 def make_agent(kind, n_actions, seed, rec):
@@ -143,7 +149,7 @@ def build_system(desc, rec, make_queue, patch_threading, flag_hook=None):
     env = MABCalibrationEnv(n)
     env._out_queue = make_queue("act")   # agent -> calibration: chosen actions
     env._in_queue = make_queue("out")    # calibration -> agent: outcomes
-    agent = make_agent(desc["agent"], n, desc["seed"] % 1000, rec)
+    agent = make_agent(desc["agent"], n, case_seed(desc), rec)
 
     cls = RLScheduler
     if flag_hook is not None:
@@ -162,7 +168,7 @@ def build_system(desc, rec, make_queue, patch_threading, flag_hook=None):
         cls = MonRL
     old = rlmod.threading
     rlmod.threading = patch_threading
-    sched = cls(samplers, agent, env, random_state=desc["seed"] % 1000)
+    sched = cls(samplers, agent, env, random_state=case_seed(desc))
 
     def restore():
         rlmod.threading = old
@@ -197,7 +203,7 @@ def drive_calibrator(desc, sched, env, rec, losses, queues, alive_fn):
     sched.get_next_sampler, sched.update = next_sampler, update
     with quiet():
         cal = Calibrator(loss_function=MinkowskiLoss(p=1), real_data=np.zeros((1, 1)), model=MM.Scripted(vals), parameters_bounds=[[0.0], [1.0]],
-                         parameters_precision=[0.001], ensemble_size=1, scheduler=sched, verbose=False, random_state=desc["seed"] % 997, n_jobs=1)
+                         parameters_precision=[0.001], ensemble_size=1, scheduler=sched, verbose=False, random_state=case_seed(desc) % 99991, n_jobs=1)
     for s, nb in enumerate(desc["shape"]):
         state["s"] = s
         rec("session_start", s)
